@@ -448,7 +448,9 @@ func runFaults(out *TraceWriter, seed int64, run int, heights int) {
 			e := &fev{kind: []string{"cut", "cut", "restart"}[rng.Intn(3)], at: start + rng.Int63n(8*t.tpb)}
 			if e.kind == "restart" {
 				if restartBudget <= 0 {
-					e.kind = "cut"
+					// outside the fault budget only a HARMLESS restart is allowed: the process restarts with empty consensus state
+					// at a moment when it has not (pre)committed (forgetting one's own commit would be a Byzantine fault)
+					e.kind = []string{"cut", "softrestart"}[rng.Intn(2)]
 				} else {
 					restartBudget--
 				}
@@ -556,6 +558,8 @@ func runFaults(out *TraceWriter, seed int64, run int, heights int) {
 					if e.dur > maxDur {
 						maxDur = e.dur
 					}
+				} else if v := t.c.byID[e.nodes[0]]; e.kind == "softrestart" && (v.D.CommitSent() || v.D.PreCommitSent()) {
+					e.done = true // locked: the restart does not happen
 				} else {
 					v := t.c.byID[e.nodes[0]]
 					delete(t.resetAt, v.ID)
